@@ -49,7 +49,7 @@ pub(crate) fn validate_user_properties(properties: &Option<Vec<UserProperty>>, p
     if let Some(props) = properties {
         for property in props {
             validate_string_length(property.name.as_str(), packet_type, function_name, "UserProperty Name")?;
-            validate_string_length(property.name.as_str(), packet_type, function_name, "UserProperty Value")?;
+            validate_string_length(property.value.as_str(), packet_type, function_name, "UserProperty Value")?;
         }
     }
 
